@@ -44,6 +44,11 @@ EVIDENCE_NOTES = [
     "chan_futex_take_only_after_nonempty_check state that such a return neither gives up nor consumes.  The synclock model "
     "is C04's (imported read-only) and has no such choice, so synclock scenarios run without fspur/fwake (its loop re-tries "
     "the CAS after any return of the wait, which the C04 model takes only from a genuine wake-up or a changed word)",
+    "abq_cv_waiters_homogeneous names what the abq counting invariants rely on (waiters of cv_not_full are producers only, of "
+    "cv_not_empty consumers only; in the model this is carried by the program points); refuted_single_condition_variable / "
+    "abq_single_cv_deadlocks (C03/Variants.v) show the merged-condition-variable variant deadlocking (capacity 1, two "
+    "producers, one consumer).  If the queue / double-buffer struct loses the documented fields the driver is rebuilt with "
+    "-DC03_NAMES_BY_OFFSET (objects named by offset) so that the scenarios still run and the deadlock detector still applies",
     "'empty' / 'full' in the theorems are the code's own tests (write_cursor = IDX(read_cursor+1); cursor = reader position; "
     "cnt = 0 / capacity; back->cnt = 0).  That the ring's test means 'no unread message' needs the documented no-lapping "
     "usage and is the data-path invariant of C02 (Example ring_lapped_reader_sleeps shows a lapped reader going to sleep)",
@@ -74,7 +79,20 @@ EVIDENCE_NOTES = [
 
 
 def build_impl(ctx):
-    return V.build_vsched_driver(ID, C_DRIVER, REPO_SOURCES)
+    try:
+        return V.build_vsched_driver(ID, C_DRIVER, REPO_SOURCES)
+    except RuntimeError as e:
+        # The driver names the queue's mutex / condition variables through the documented struct
+        # fields.  If those fields are gone (e.g. two condition variables merged into one) the driver
+        # does not compile; rebuild it naming the synchronisation objects by their offset inside the
+        # object instead, so that the scenarios still run under the scheduler: the deadlock detector
+        # and the monitor do not depend on the names (trace acceptance will then reject, which is
+        # reported after the monitor's findings).
+        if "c03_driver.c" not in str(e):
+            raise
+        ctx.notes.append("c03_driver.c did not compile against the documented struct fields; rebuilt with "
+                         "-DC03_NAMES_BY_OFFSET: " + str(e).strip().split("\n")[-1][:200])
+        return V.build_vsched_driver(ID, C_DRIVER, REPO_SOURCES, extra_flags=["-DC03_NAMES_BY_OFFSET"])
 
 
 # ---------------------------------------------------------------------------
@@ -120,9 +138,16 @@ def _scenario(rng, kind):
             rs = _split(total, nrd, rng)
         return "ring %s %d %s R %s W %s" % (md, cap, wl, " ".join(map(str, rs)), " ".join(map(str, ks)))
     if kind == "abq":
-        cap = rng.range(1, 4)
-        nc, np_ = rng.range(1, 2), rng.range(1, 3)
-        total = rng.range(max(nc, np_), max(nc, np_) + 4)
+        if rng.chance(1, 2):
+            # tight queues: more threads on one side than slots, scripts long enough that producers
+            # asleep on a full queue and consumers asleep on an empty one coexist
+            cap = rng.range(1, 2)
+            nc, np_ = rng.range(1, 2), rng.range(2, 3)
+            total = rng.range(max(nc, np_) + 1, max(nc, np_) + 5)
+        else:
+            cap = rng.range(1, 4)
+            nc, np_ = rng.range(1, 2), rng.range(1, 3)
+            total = rng.range(max(nc, np_), max(nc, np_) + 4)
         return "abq %d R %s W %s" % (cap, " ".join(map(str, _split(total, nc, rng))), " ".join(map(str, _split(total, np_, rng))))
     if kind == "dbuf":
         cap = rng.range(1, 4)
